@@ -34,7 +34,8 @@ func init() {
 			"operation A is parked there while the opposite operation B (Subscribe resp. Publish) runs to completion or blocks behind A (decided by the quiescence detector), then A is released; grid x buffer {0,1,4} x blocking x {0,1,3} messages published before x {with/without an older subscription}, plus 1..2 messages after. " +
 			"burst part (every third non-forced case): 24 fresh topics per case; on each, 3..8 publishers released by a barrier publish as the very first operations on that topic (first use of the per-topic lock and of the topic's log), optionally racing a first Subscribe, then a late subscription must be replayed every accepted message exactly once. " +
 			"random part: persistent GoChannel, 1..2 topics, 1..4 publishers x 1..10 messages (batches 1..3), 1..5 always-acking subscriptions started at random moments, yield/delay injection at the hook points. " +
-			"Oracle at quiescence: for every subscription the multiset of received UUIDs equals the set of successfully published UUIDs of its topic, every count exactly 1. " +
+			"Oracle at quiescence: for every subscription the multiset of received messages equals the set of successfully published messages of its topic, every count exactly 1. " +
+			"In the forced and burst classes messages are identified by their payload and the UUIDs are unique, all empty or all equal (Message.UUID is not an identity). " +
 			"Non-trivial: a forced case reached its park point and both operations completed; a random case had a Subscribe call overlapping at least one Publish call in logical time. Distinct = (spec, hook-arrival fingerprint).",
 		Assumptions: []string{
 			"subscribers always Ack (the property's exactly-once clause); Close is called only after the judgement",
@@ -68,6 +69,18 @@ func (r *rec) add(u string) {
 	r.mu.Unlock()
 }
 
+// uuidFn: Message.UUID is not an identity ("only used by Watermill for debugging. UUID can be empty"); the harness
+// tells messages apart by their payload and lets the UUIDs be unique, all empty, or all the same.
+func uuidFn(r *vlib.Rand, id string) (string, func(string) string) {
+	switch r.Intn(4) {
+	case 0:
+		return "empty", func(string) string { return "" }
+	case 1:
+		return "same", func(string) string { return id + "/same-uuid" }
+	}
+	return "unique", func(u string) string { return u }
+}
+
 func forced(e *vlib.Env) vlib.Result {
 	i := e.Idx
 	point := forcedPoints[i%len(forcedPoints)]
@@ -79,7 +92,8 @@ func forced(e *vlib.Env) vlib.Result {
 	before := []int{0, 1, 3}[i%3]
 	i /= 3
 	older := i%2 == 1
-	spec := fmt.Sprintf("park=%s buf=%d blocking=%v before=%d olderSub=%v", point, buf, blocking, before, older)
+	uuidMode, uuidOf := uuidFn(e.R, e.ID())
+	spec := fmt.Sprintf("park=%s buf=%d blocking=%v before=%d olderSub=%v uuids=%s", point, buf, blocking, before, older, uuidMode)
 	res := vlib.Result{Class: "forced/" + strings.TrimPrefix(point, "gochannel."), Spec: spec}
 
 	ps := gochannel.NewGoChannel(gochannel.Config{OutputChannelBuffer: buf, Persistent: true, BlockPublishUntilSubscriberAck: blocking}, watermill.NopLogger{})
@@ -102,7 +116,7 @@ func forced(e *vlib.Env) vlib.Result {
 				pubMu.Unlock()
 			}
 		}()
-		if err := ps.Publish(topic, message.NewMessage(u, []byte(u))); err == nil {
+		if err := ps.Publish(topic, message.NewMessage(uuidOf(u), []byte(u))); err == nil {
 			pubMu.Lock()
 			published = append(published, u)
 			pubMu.Unlock()
@@ -124,7 +138,7 @@ func forced(e *vlib.Env) vlib.Result {
 		go func() {
 			defer consumers.Done()
 			for m := range ch {
-				r.add(m.UUID)
+				r.add(string(m.Payload))
 				m.Ack()
 			}
 		}()
@@ -214,6 +228,7 @@ func forced(e *vlib.Env) vlib.Result {
 	res.Sig = vlib.Sig(spec, bBlocked, ctl.Fingerprint())
 	res.NonTrivial = reached
 	res.Count("forced_reached", b2i(reached))
+	res.Count("uuids_"+uuidMode, 1)
 	res.Count("b_blocked_behind_a", b2i(bBlocked))
 	res.Count("b_completed_while_a_parked", b2i(reached && !bBlocked))
 	if !reached && res.Verdict == "" {
@@ -399,7 +414,8 @@ func random(e *vlib.Env) vlib.Result {
 func burst(e *vlib.Env) vlib.Result {
 	r := e.R
 	cfg := gochannel.Config{OutputChannelBuffer: []int64{0, 1, 8}[r.Intn(3)], Persistent: true, BlockPublishUntilSubscriberAck: false}
-	res := vlib.Result{Class: fmt.Sprintf("burst/buf%d", cfg.OutputChannelBuffer)}
+	uuidMode, uuidOf := uuidFn(r, e.ID())
+	res := vlib.Result{Class: fmt.Sprintf("burst/buf%d", cfg.OutputChannelBuffer), Spec: "uuids=" + uuidMode}
 	ps := gochannel.NewGoChannel(cfg, watermill.NopLogger{})
 	const topics = 24
 	type tstate struct {
@@ -419,7 +435,7 @@ func burst(e *vlib.Env) vlib.Result {
 		go func() {
 			defer consumers.Done()
 			for m := range ch {
-				rc.add(m.UUID)
+				rc.add(string(m.Payload))
 				m.Ack()
 			}
 		}()
@@ -440,7 +456,7 @@ func burst(e *vlib.Env) vlib.Result {
 			go func(p int) {
 				defer wg.Done()
 				u := fmt.Sprintf("%s/m%d", st.topic, p)
-				m := message.NewMessage(u, []byte(u))
+				m := message.NewMessage(uuidOf(u), []byte(u))
 				<-barrier
 				if err := ps.Publish(st.topic, m); err == nil {
 					st.mu.Lock()
@@ -496,6 +512,7 @@ func burst(e *vlib.Env) vlib.Result {
 		}
 	}
 	res.Count("fresh_topics", topics)
+	res.Count("uuids_"+uuidMode, 1)
 	res.Count("concurrent_first_publishes", npubTotal)
 	res.NonTrivial = true
 	res.Sig = vlib.Sig("burst", cfg.OutputChannelBuffer, npubTotal, e.Idx)
